@@ -250,7 +250,7 @@ func TestVerifC10(t *testing.T) {
 			}
 		}
 		// environment assignments
-		for e := rng.IntN(3); e > 0 && rng.IntN(3) == 0; e-- {
+		for e := rng.IntN(4); e > 0; e-- {
 			var k, v string
 			switch rng.IntN(6) {
 			case 0, 1:
@@ -266,6 +266,9 @@ func TestVerifC10(t *testing.T) {
 				k, v = fmt.Sprintf("MTX_AUTHINTERNALUSERS_%s_%s", pick(rng, []string{"0", "1", "7", "99999999", "-1", "x", "18446744073709551616"}), pick(rng, []string{"USER", "PASS", "IPS", "PERMISSIONS_0_ACTION", "PERMISSIONS_5_PATH", "PERMISSIONS"})), pick(rng, []string{"any", "", "read", "127.0.0.1,::1", "x"})
 			default:
 				k, v = pick(rng, []string{"MTX_PATHS", "MTX_", "MTX_PATHS_", "MTX_PATHS_X", "MTX_WEBRTCICESERVERS2_0_URL", "MTX_LOGDESTINATIONS", "MTX_PATHS_X_FORWARD_0_DEST", "MTX_PATHS_X_ALWAYSAVAILABLETRACKS_0_CODEC", "MTX_RTSPTRANSPORTS"}), pick(rng, []string{"", ",", "a,b", "stun:h:1", "tcp,udp", "x"})
+			}
+			if rng.IntN(6) == 0 {
+				v = "" // the empty value (the empty list for list parameters)
 			}
 			env[k] = v
 		}
